@@ -19,7 +19,7 @@ FINDINGS = os.path.join(VERIF, 'known_findings.json')
 # evidence/ and replays/ go under VERIF_OUT when set (runs against scratch copies must not overwrite the
 # evidence of /repo itself); default /verif
 OUT = os.environ.get('VERIF_OUT') or VERIF
-MAX_REPORTED = 25
+MAX_REPORTED = 60
 
 
 def load_findings(pid):
@@ -143,6 +143,12 @@ def do_replay(pid, path):
 def do_check(pid, tier, seed):
     mod = get_mod(pid)
     t0 = time.time()
+    # replays of earlier runs of this check are stale by definition
+    rdir = os.path.join(OUT, 'replays')
+    if os.path.isdir(rdir):
+        for f in os.listdir(rdir):
+            if f.startswith(pid + '-') and f.endswith('.json'):
+                os.remove(os.path.join(rdir, f))
     units = mod.units(tier)
     if not units:
         raise HarnessError('no work units')
